@@ -356,6 +356,18 @@ def pixel_size_check_width(F, S):
                 out.append(ok("R-NOWRAP", inst, vp.loc(nd["id"]), vp.qn, "pitch x |height| is formed in 64 bits", "type %s" % nd.get("ct")))
             else:
                 out.append(bad("R-NOWRAP", inst, vp.loc(nd["id"]), vp.qn, "pitch x |height| is formed in 64 bits", "formed in %s: matches modulo 2^%s only" % (nd.get("ct"), nd.get("iw"))))
+    # strength: whichever way the comparison is written, every returning path has passed an equality that involves the pixel
+    # byte count (a path that returns without one accepts any amount of pixel data for those dimensions)
+    eng, ex = exit_events(F, S, vp)
+    sz = P(vp, 3)
+    inst = "%s#every-path-compares" % vp.qn
+    req = "every returning path of the pixel-size check has passed an equality between the pixel byte count and the size the dimensions call for"
+    has = any(f[0] == "ev" and f[1] == "passed" and f[2][0] == "==" and mentions(f[2], sz) for f in ex) or \
+        any(f[0] == "==" and mentions(f, sz) and (f[1][0] in ("op",) or f[2][0] in ("op",)) for f in ex)
+    if has:
+        out.append(ok("R-MUSTCALL", inst, vp.loc(vp.body), vp.qn, req, "an equality on the byte count is passed on every returning path"))
+    else:
+        out.append(bad("R-MUSTCALL", inst, vp.loc(vp.body), vp.qn, req, "a path returns without comparing the byte count (e.g. an early return for a special case)"))
     return out
 
 
